@@ -88,7 +88,7 @@ class Exec:
                 for lab, k in self.w.kind.items():
                     if k in "em":
                         return self.w.objs[lab]
-                raise _Missing()
+                return BAD_VALUES["obj"]
             return BAD_VALUES[label["bad"]]
         try:
             return self.w.objs[label]
